@@ -123,4 +123,40 @@ Section Measure.
   (* the (unnormalised) state of the unique branch with record r: sum of w * psi over matching branches (used only when unique) *)
   Definition rec_states (bs : list branch) (r : list nat) : list (list K) :=
     map (fun b => vscale O (bw b) (bpsi b)) (filter (fun b => list_eqb_nat (flat_rec (brec b)) r) bs).
+
+  (* ---- density-operator form of the same semantics: Kraus operators do not branch ---- *)
+  Record dbranch := { dw : K; drec : list recd; drho : list K }.     (* rho tabulated over shape sh ++ sh *)
+  Definition dm_apply (m : matrix (K:=K)) (dims ax sh : list nat) (rho : list K) : list K :=
+    let n := length sh in
+    apply_tab O (mconj O m) dims (map (fun a => a + n) ax) (sh ++ sh) (apply_tab O m dims ax (sh ++ sh) rho).
+  Definition dm_kraus (ks : list (matrix (K:=K))) (dims ax sh : list nat) (rho : list K) : list K :=
+    fold_right (fun k acc => vadd O (dm_apply k dims ax sh rho) acc) (map (fun _ => k0 O) rho) ks.
+  Definition dm_project (sh ax v : list nat) (rho : list K) : list K :=
+    let n := length sh in
+    project (sh ++ sh) (map (fun a => a + n) ax) v (project (sh ++ sh) ax v rho).
+  Definition reset_kraus (d : nat) : list (matrix (K:=K)) :=
+    map (fun j => map (fun r => map (fun c => if Nat.eqb r 0 && Nat.eqb c j then k1 O else k0 O) (seq 0 d)) (seq 0 d)) (seq 0 d).
+  Definition dstep (sh : list nat) (o : mop) (b : dbranch) : list dbranch :=
+    match o with
+    | MGate g => [{| dw := dw b; drec := drec b; drho := dm_apply (gate_model O (fst g)) (gate_dims (fst g)) (snd g) sh (drho b) |}]
+    | MMeasure key ax inv cs =>
+        let dims := map (fun a => nth a sh 2) ax in
+        flat_map (fun v =>
+                    let rho' := dm_project sh ax v (drho b) in
+                    map (fun wd => {| dw := fst wd; drec := drec b ++ [(key, invert inv (snd wd), dims)]; drho := rho' |})
+                        (confuse dims cs (dw b, v)))
+                 (enum dims)
+    | MCtrl conds g =>
+        if forallb (fun c => match eval_cond c (drec b) with Some true => true | _ => false end) conds
+        then [{| dw := dw b; drec := drec b; drho := dm_apply (gate_model O (fst g)) (gate_dims (fst g)) (snd g) sh (drho b) |}]
+        else [b]
+    | MKraus ks dims ax => [{| dw := dw b; drec := drec b; drho := dm_kraus ks dims ax sh (drho b) |}]
+    | MReset a => let d := nth a sh 2 in [{| dw := dw b; drec := drec b; drho := dm_kraus (reset_kraus d) [d] [a] sh (drho b) |}]
+    end.
+  Definition dexec (sh : list nat) (ops : list mop) (init : list K) : list dbranch :=
+    fold_left (fun bs o => flat_map (dstep sh o) bs) ops [{| dw := k1 O; drec := []; drho := concat (outer O init) |}].
+  (* the averaged final density matrix, flattened row-major *)
+  Definition dexec_rho (sh : list nat) (ops : list mop) (init : list K) : list K :=
+    let bs := dexec sh ops init in
+    fold_right (fun b acc => vadd O (vscale O (dw b) (drho b)) acc) (map (fun _ => k0 O) (concat (outer O init))) bs.
 End Measure.
